@@ -58,6 +58,17 @@ def cases(draw):
         ops, G = gen.gen_model_ops(draw, FEAT)
     finally:
         gen.EXPORT_SAFE[0] = False
+    # parameters named like the local variables a generated wrapper might use
+    if draw(st.integers(0, 2)) == 0:
+        s = draw(st.sampled_from(G.all_spaces()))
+        pn = draw(st.sampled_from(["val", "key", "args", "value", "result"]))
+        if G.find_cells(s, "c6") is None and "c6" not in s.children and G.find_ref(s, "c6") is None:
+            cv = {"name": "c6", "params": [[pn, None]], "expr": ["bin", "+", ["bin", "*", ["var", pn], ["lit", 2]], ["lit", 1]],
+                  "cached": draw(st.booleans()), "allow_none": None, "form": draw(st.sampled_from(["lambda", "def"])),
+                  "tick": False}
+            op = ["new_cells", list(s.path), cv]
+            ops.append(op)
+            gen.apply_ref(G, op)
     # a child space whose name shadows a built-in, used through that name in a formula
     if draw(st.integers(0, 2)) == 0:
         s = G.all_spaces()[0]
